@@ -1,4 +1,5 @@
-"""spyne/model/complex.py, spyne/model/_base.py, spyne/model/primitive/number.py, spyne/util/odict.py
+"""spyne/model/complex.py, spyne/model/_base.py, spyne/model/primitive/number.py, spyne/model/binary.py,
+spyne/protocol/_base.py, spyne/util/odict.py
 ->  Gen/DeriveSrc.v   (C15)
 
 The tokens of the derivation code that decide "deriving a model never changes another model" are
@@ -11,7 +12,7 @@ from . import TranslateError
 MUTATORS = {'update', 'append', 'insert', 'pop', 'popitem', 'setdefault', 'clear', '__setitem__', '__delitem__',
             'append_field', 'insert_field', '_replace_field', '_append_field_impl', '_insert_field_impl',
             '_set_serializer', 'extend', 'remove'}
-READERS = {'get_type_name', 'customize', 'items', 'keys', 'values', 'get', 'get_flat_type_info', 'is_default',
+READERS = {'get_type_name', 'customize', 'items', 'keys', 'values', 'get', 'copy', 'get_flat_type_info', 'is_default',
            'resolve_namespace', 'get_namespace'}
 
 
@@ -353,6 +354,92 @@ def s_customize(tree):
     return fresh, keys, unbounded
 
 
+def type_attrs_copied(tree):
+    """_s_customize merges the keywords into a COPY of the protocol's type_attrs"""
+    mb = find(tree.body, ast.ClassDef, 'ModelBase', '_base.py')
+    fn = find(mb.body, ast.FunctionDef, '_s_customize', 'ModelBase')
+    hits = [n for n in ast.walk(fn) if isinstance(n, ast.Assign) and len(n.targets) == 1
+            and isinstance(n.targets[0], ast.Name) and n.targets[0].id == 'type_attrs']
+    if len(hits) != 1:
+        raise TranslateError('_s_customize: %d assignments to type_attrs' % len(hits))
+    v = hits[0].value
+    if isinstance(v, ast.Call) and not v.args and isinstance(v.func, ast.Attribute) and v.func.attr == 'copy' \
+            and is_attr(v.func.value, 'prot', 'type_attrs'):
+        copied = True
+    elif isinstance(v, ast.Call) and isinstance(v.func, ast.Name) and v.func.id == 'dict' and len(v.args) == 1 \
+            and is_attr(v.args[0], 'prot', 'type_attrs'):
+        copied = True
+    elif is_attr(v, 'prot', 'type_attrs'):
+        copied = False
+    else:
+        raise TranslateError('_s_customize: unrecognised value for type_attrs')
+    if writes_through(fn, 'prot'):
+        copied = False
+    return copied
+
+
+# ----------------------------------------------------------------------------------------------- binary.py
+def bytearray_new(tree):
+    """ByteArray.__new__ touches the encoding only when the keyword is given"""
+    cd = find(tree.body, ast.ClassDef, 'ByteArray', 'binary.py')
+    fn = find(cd.body, ast.FunctionDef, '__new__', 'ByteArray')
+    def names_encoding(x):
+        return isinstance(x, ast.Constant) and x.value == 'encoding'
+    guarded = None
+    for n in fn.body:
+        if isinstance(n, ast.If) and isinstance(n.test, ast.Compare) and names_encoding(n.test.left) \
+                and len(n.test.ops) == 1 and isinstance(n.test.ops[0], ast.In) and is_attr(n.test.comparators[0], 'kwargs'):
+            writes = [t for t in store_targets(n) if isinstance(t, ast.Subscript) and is_attr(t.value, 'kwargs')]
+            if writes:
+                guarded = True
+        else:
+            for t in store_targets(n):
+                if isinstance(t, ast.Subscript) and is_attr(t.value, 'kwargs') and "'encoding'" in ast.dump(t):
+                    guarded = False
+    if guarded is None:
+        raise TranslateError('ByteArray.__new__: no assignment to kwargs["encoding"]')
+    return guarded
+
+
+# ----------------------------------------------------------------------------------------------- protocol/_base.py
+def sortcache_key(tree):
+    """sort_fields caches per class (a variant has its own field types)"""
+    cd = find(tree.body, ast.ClassDef, 'ProtocolMixin', 'protocol/_base.py')
+    fn = find(cd.body, ast.FunctionDef, 'sort_fields', 'ProtocolMixin')
+    keys = []
+    for n in ast.walk(fn):
+        if isinstance(n, ast.Call) and isinstance(n.func, ast.Attribute) and n.func.attr == 'get' \
+                and is_attr(n.func.value, 'self', '_sortcache') and n.args:
+            keys.append(n.args[0])
+        if isinstance(n, ast.Assign):
+            for t in n.targets:
+                if isinstance(t, ast.Subscript) and is_attr(t.value, 'self', '_sortcache'):
+                    keys.append(t.slice)
+    if len(keys) < 2:
+        raise TranslateError('sort_fields: the reads / writes of self._sortcache were not found')
+    per_class = all(isinstance(k, ast.Name) and k.id == 'cls' for k in keys)
+    # the entry is checked against the flat type info it was computed from
+    checked = any(isinstance(n, ast.Compare) and len(n.ops) == 1 and isinstance(n.ops[0], ast.Is)
+                  and isinstance(n.comparators[0], ast.Name) and n.comparators[0].id == 'fti' for n in ast.walk(fn))
+    return per_class, checked
+
+
+def flat_alias_source(cx, cmb):
+    """the alias table of the flat type info is computed from the flat fields"""
+    rec = find(cx.body, ast.FunctionDef, '_get_flat_type_info', 'complex.py')
+    for n in ast.walk(rec):
+        if isinstance(n, ast.Attribute) and n.attr == 'alt':
+            return False            # taken from a stored table (cls._type_info_alt / cls._type_info.alt)
+    fn = find(cmb.body, ast.FunctionDef, 'get_flat_type_info', 'ComplexModelBase')
+    for n in ast.walk(fn):
+        if isinstance(n, ast.For) and isinstance(n.iter, ast.Call) and is_attr(n.iter.func, 'retval', 'items'):
+            calls = [c for c in ast.walk(n) if isinstance(c, ast.Call) and isinstance(c.func, ast.Name) and c.func.id == '_type_info_alias']
+            stores = [t for t in store_targets(n) if isinstance(t, ast.Subscript) and is_attr(t.value, 'retval', 'alt')]
+            if calls and stores:
+                return True
+    raise TranslateError('get_flat_type_info: neither a stored alias table nor the loop over the flat fields was recognised')
+
+
 # ----------------------------------------------------------------------------------------------- number.py
 def decimal_msl(tree):
     cd = find(tree.body, ast.ClassDef, 'Decimal', 'number.py')
@@ -430,6 +517,8 @@ def generate(repo):
     mb = parse(repo, 'spyne/model/_base.py')
     nb = parse(repo, 'spyne/model/primitive/number.py')
     od = parse(repo, 'spyne/util/odict.py')
+    bn = parse(repo, 'spyne/model/binary.py')
+    pb = parse(repo, 'spyne/protocol/_base.py')
     cmb = find(cx.body, ast.ClassDef, 'ComplexModelBase', 'complex.py')
     meta = find(cx.body, ast.ClassDef, 'ComplexModelMeta', 'complex.py')
     m_writes, m_base, m_uni = mandatory(cx)
@@ -468,6 +557,16 @@ def generate(repo):
     t.append('(* Decimal._s_customize: max_str_len computed from the request, "+ n" *)')
     t.append('Definition decimal_msl_from_request : bool := %s.' % gbool(from_request))
     t.append('Definition decimal_msl_add : Z := %d.' % add)
+    per_class, checked = sortcache_key(pb)
+    t.append('(* _s_customize merges the keywords into a copy of the type_attrs of the protocol *)')
+    t.append('Definition type_attrs_copied : bool := %s.' % gbool(type_attrs_copied(mb)))
+    t.append('(* ByteArray.__new__ rewrites kwargs["encoding"] only under "if \'encoding\' in kwargs" *)')
+    t.append('Definition bytearray_encoding_only_when_given : bool := %s.' % gbool(bytearray_new(bn)))
+    t.append('(* ProtocolMixin.sort_fields: one cache entry per class, checked against the flat type info it came from *)')
+    t.append('Definition sortcache_per_class : bool := %s.' % gbool(per_class))
+    t.append('Definition sortcache_checked : bool := %s.' % gbool(checked))
+    t.append('(* the alias table of the flat type info is computed from the flat fields, not stored *)')
+    t.append('Definition flat_alias_from_fields : bool := %s.' % gbool(flat_alias_source(cx, cmb)))
     t.append('(* odict: __setitem__ appends only a new key; insert moves a known key *)')
     t.append('Definition odict_setitem_new_only : bool := %s.' % gbool(new_only))
     t.append('Definition odict_insert_moves : bool := %s.' % gbool(moves))
